@@ -459,6 +459,10 @@ where
                 // indicate that the message successfully authenticated
                 // with that key.
                 context.tsig_key = Some(tsig_rr.key_name().to_owned());
+            } else {
+                // Any other record in the additional section is of no
+                // interest to us; move on to the next one.
+                peek_rr.skip();
             }
         }
 
